@@ -380,6 +380,8 @@ class SeqRun(seq_hooks.HooksMixin, object):
             raise
         except Exception as e:
             self.probe('modification_refused')
+            if os.environ.get('PONYSIM_DEV_TB'):
+                traceback.print_exc()
             self.trace.append('%s.%s FAIL %s -> %s: %s' % (self.sess_index, self.op_index, desc, type(e).__name__, str(e)[:100]))
             self.probe('refused_' + type(e).__name__)
             fault = len(simdb.ctx.fired) > g0
